@@ -8,6 +8,12 @@ pub struct DateTime {
 
 impl DateTime {
     pub fn now() -> Self {
+        #[cfg(cicada_verif)]
+        if let Some(ts) = crate::verif::now_hook() {
+            if let Ok(odt) = OffsetDateTime::from_unix_timestamp_nanos((ts * 1e9) as i128) {
+                return DateTime { odt };
+            }
+        }
         let odt: OffsetDateTime = match OffsetDateTime::now_local() {
             Ok(dt) => dt,
             Err(_) => OffsetDateTime::now_utc(),
